@@ -952,7 +952,8 @@ Lemma identify_response_listen o peer local b i : identify_response o peer local
   exists m, dec_identify b = Some m /\ incl (ii_listen i) (i_listen m) /\
             (length (ii_listen i) <= length (i_listen m))%nat.
 Proof.
-  unfold identify_response. destruct (dec_identify b) as [m|]; [|discriminate]. intros [= <-].
+  unfold identify_response. destruct (IDENTIFY_PAYLOAD_SIZE <? blen b); [discriminate|].
+  destruct (dec_identify b) as [m|]; [|discriminate]. intros [= <-].
   exists m. split; [reflexivity|]. cbn [ii_listen]. split.
   - intros a Ha. apply filter_In in Ha. apply Ha.
   - apply filter_len.
@@ -1386,4 +1387,86 @@ Lemma webrtc_decode1_alloc data m rest : webrtc_decode1 data = Some (DOk m, rest
 Proof.
   intros D. destruct (webrtc_decode1_spec _ _ _ D) as (l & tail & _ & _ & E & _ & _ & S).
   symmetry in E. pose proof (decode_msg_size _ _ E) as Z. destruct m; try exact I; lia.
+Qed.
+
+(* ================================================================== yamux SYN credit (known finding class 1) *)
+Lemma yamux_syn_credit_refuted :
+  exists credit, credit < 2 ^ 32 /\ u32_add_checked credit YAMUX_DEFAULT_CREDIT = None /\
+    yamux_syn_credit_overflow 2 [0; 1; 0; 1; 0; 0; 0; 1; 255; 255; 255; 255] = true.
+Proof. exists (2 ^ 32 - 1). repeat split; vm_compute; reflexivity. Qed.
+
+Lemma yamux_syn_credit_partial credit :
+  credit + YAMUX_DEFAULT_CREDIT < 2 ^ 32 -> u32_add_checked credit YAMUX_DEFAULT_CREDIT = Some (credit + YAMUX_DEFAULT_CREDIT).
+Proof. intros H. unfold u32_add_checked. destruct (credit + YAMUX_DEFAULT_CREDIT <? 2 ^ 32) eqn:E; [reflexivity|lia]. Qed.
+
+(* ================================================================== webrtc.proto and its framing *)
+Lemma webrtc_extract_frame b body rest : webrtc_extract b = WfFrame body rest ->
+  blen body <= WEBRTC_MAX_FRAME /\ exists pre, b = pre ++ body ++ rest /\ (1 <= length pre <= 10)%nat.
+Proof.
+  unfold webrtc_extract. destruct (take_varint 10 b) as [[pre r]|] eqn:T.
+  2:{ destruct (blen b <? 10); discriminate. }
+  destruct (minimal pre); [|discriminate].
+  set (len := value pre mod 2 ^ 64). destruct (WEBRTC_MAX_FRAME <? len) eqn:E1; [discriminate|].
+  destruct (blen r <? len) eqn:E2; [discriminate|]. intros [= <- <-].
+  destruct (take_varint_split _ _ _ _ T) as (-> & L). split.
+  - unfold blen in *. rewrite firstn_length. lia.
+  - exists pre. rewrite firstn_skipn. split; [reflexivity|exact L].
+Qed.
+
+(* the length is compared with MAX_FRAME_SIZE before the decoder waits for (and buffers) the body *)
+Lemma webrtc_extract_oversized pre rest : take_varint 10 (pre ++ rest) = Some (pre, rest) -> minimal pre = true ->
+  WEBRTC_MAX_FRAME < value pre mod 2 ^ 64 -> webrtc_extract (pre ++ rest) = WfErr.
+Proof.
+  intros T M H. unfold webrtc_extract. rewrite T, M.
+  destruct (WEBRTC_MAX_FRAME <? value pre mod 2 ^ 64) eqn:E; [reflexivity|lia].
+Qed.
+
+Lemma wr_step_size m f m' : wr_step m f = Some m' ->
+  (olen (wr_message m') <= olen (wr_message m) + fcost f)%nat.
+Proof.
+  destruct f as [num v]. unfold wr_step, fcost. cbn [snd].
+  intros H. step_cases; try discriminate; injection H as <-; cbn [wr_message olen wpayload]; lia.
+Qed.
+
+Lemma dec_wr_size b m : dec_wr b = Some m -> (olen (wr_message m) <= length b)%nat.
+Proof.
+  unfold dec_wr. destruct (top_fields b) as [fs|] eqn:E; [|discriminate]. intros H.
+  pose proof (fold_opt_size _ (fun m => olen (wr_message m)) wr_step_size _ _ _ H) as S.
+  pose proof (top_fields_size _ _ E). cbn in S. lia.
+Qed.
+
+Lemma dec_enc_wr m : match wr_flag m with Some f => f < 2 ^ 32 | None => True end -> wf_obytes (wr_message m) ->
+  dec_wr (encode_fields (fields_wr m)) = Some m.
+Proof.
+  intros Hf Hm. unfold dec_wr, top_fields, pb_parse. rewrite pb_parse_encode.
+  - cbn [res_opt]. destruct m as [[f|] [p|]]; cbn [fields_wr wr_flag wr_message f_opt_bytes app fold_opt wr_step] in *;
+      cbn; try (destruct (i32_roundtrip f Hf) as [-> _]); reflexivity.
+  - unfold fields_wr. rewrite Forall_app. split.
+    + destruct (wr_flag m) as [f|]; [|constructor]. constructor; [split; [wfn|cbn [snd]; apply i32_roundtrip; exact Hf]|constructor].
+    + apply f_opt_bytes_wf; [wfn|exact Hm].
+Qed.
+
+(* WebRtcMessage::encode followed by extract_framed_message + WebRtcMessage::decode *)
+Lemma webrtc_roundtrip payload flag rest :
+  wf_bytes payload -> match flag with Some f => f < 4 | None => True end ->
+  let body := encode_fields (fields_wr (mkWr flag (if is_nil payload then None else Some payload))) in
+  blen body <= WEBRTC_MAX_FRAME ->
+  webrtc_extract (webrtc_encode_message payload flag ++ rest) = WfFrame body rest /\
+  webrtc_message body = Some (if is_nil payload then None else Some payload, flag).
+Proof.
+  intros Wp Wf body Hb. split.
+  - unfold webrtc_encode_message. fold body. rewrite <- app_assoc.
+    unfold webrtc_extract. destruct (encode_spec (blen body)) as (W & V & M).
+    assert (H64 : blen body < 2 ^ 64) by (unfold WEBRTC_MAX_FRAME, Consts.C19_WEBRTC_MAX_FRAME_SIZE in Hb; rewrite two64; lia).
+    assert (L : (length (encode (blen body)) <= 10)%nat) by (apply (encode_length _ 9); pose proof pow128_10; lia).
+    rewrite (take_varint_app 10 _ _ W L), M, V. rewrite N.mod_small by exact H64.
+    destruct (WEBRTC_MAX_FRAME <? blen body) eqn:E1; [lia|].
+    rewrite blen_app. destruct (blen body + blen rest <? blen body) eqn:E2; [lia|].
+    unfold blen at 1 2. rewrite Nat2N.id.
+    rewrite firstn_app, Nat.sub_diag, firstn_all. cbn [firstn]. rewrite app_nil_r.
+    rewrite skipn_app, Nat.sub_diag, skipn_all. reflexivity.
+  - unfold webrtc_message, body. rewrite dec_enc_wr.
+    + cbn [wr_message wr_flag]. destruct flag as [f|]; [|reflexivity]. destruct (f <? 4) eqn:E; [reflexivity|lia].
+    + cbn [wr_flag]. destruct flag as [f|]; [rewrite two32; lia|exact I].
+    + cbn [wr_message]. destruct (is_nil payload); [exact I|exact Wp].
 Qed.
